@@ -297,6 +297,10 @@ type RecMsg struct {
 	PreCommits []*Payload
 	Commits    []*Payload
 	prepHash   *Hash
+	// Lax: the application does not authenticate the compact entries (like the repository's
+	// reference payloads): Get* return every entry of the right type and height.  Only the API
+	// fuzz of C11 builds such messages; cluster runs always authenticate.
+	Lax bool
 }
 
 type Payload struct {
@@ -458,7 +462,7 @@ func (p *Payload) Clone() *Payload {
 			return o
 		}
 		n := &RecMsg{PrepReqP: b.PrepReqP.Clone(), PrepResps: cl(b.PrepResps), ChViews: cl(b.ChViews),
-			PreCommits: cl(b.PreCommits), Commits: cl(b.Commits)}
+			PreCommits: cl(b.PreCommits), Commits: cl(b.Commits), Lax: b.Lax}
 		if b.prepHash != nil {
 			h := *b.prepHash
 			n.prepHash = &h
@@ -544,7 +548,7 @@ func (m *RecMsg) GetPrepareRequest(p dbft.ConsensusPayload[Hash], vals []dbft.Pu
 	if e == nil || e.T != dbft.PrepareRequestType || e.H != p.Height() || e.V != p.ViewNumber() || e.Idx != primary {
 		return nil
 	}
-	if !witnessOK(e, vals) {
+	if !m.Lax && !witnessOK(e, vals) {
 		return nil
 	}
 	return e.Clone()
@@ -559,7 +563,7 @@ func (m *RecMsg) filter(l []*Payload, t dbft.MessageType, p dbft.ConsensusPayloa
 		if sameView && e.V != p.ViewNumber() {
 			continue
 		}
-		if !witnessOK(e, vals) {
+		if !m.Lax && !witnessOK(e, vals) {
 			continue
 		}
 		out = append(out, e.Clone())
